@@ -274,8 +274,11 @@ func runSeriesCase(e *env, c *SpecCase, seed int64) {
 		}
 		select {
 		case o, ok := <-w.GetRes():
-			complete = ok
-			body = o.Str
+			// a closed channel without a frame is how Tail ends a tick that hit an error entry (no message is sent)
+			complete = true
+			if ok {
+				body = o.Str
+			}
 		case <-time.After(20 * time.Second):
 		}
 		w.Close()
